@@ -635,11 +635,12 @@ fn subs_for<B: Backend>(out: &mut Vec<SubCheck>) {
 pub fn def() -> PropertyDef {
     let mut subs = Vec::new();
     crate::for_backends!(B => subs_for::<B>(&mut subs));
+    subs.push(SubCheck::prop("c04.authentic-hostile-messages", 3, (6000, 120000), |_t| hostile_strategy(), hostile_case).isolated());
     subs.push(SubCheck::prop("c04.validators", 3, (30000, 600000), |_t| val_strategy(), val_case).isolated());
     PropertyDef {
         id: "C04",
         level: "exploration",
-        rule: "per back end (each in its own child process; harness built with overflow checks, repo crates with debug assertions): (a) enumeration of every decoded payload length 0..=700 x {random, 0x00, 0xff, mutated-valid} under every header of the back end, and every structured key-byte shape of the C08 catalogue (incl. structurally odd RSA private keys); one valid string of every kind with single bytes substituted - all 256 values at every field boundary (format tags), 12 edge values at 25 further offsets; (b) proptest inputs: header + bytes, raw key bytes of every kind, library-produced valid strings of every kind with 0-4 edits (substitute / insert / delete / append / duplicate segment / swap header / truncate), arbitrary and grammar-shaped strings; each string is offered to EVERY FromStr of the back end (tokens with Vec<u8>, (), Json and RegisteredClaims payload/footer types; key texts; typed keys of all five kinds; ids; PIE; PBKW; sealed keys) and whatever parses is used: Display, unverified_footer, unseal with and without assertion, key conversion, expose, id, clone, public_key, seal / sign / wrap / seal-key to it, unwrap, params + password unwrap (KDF cost within the budget: <= 8 MiB quick / 64 MiB thorough, <= 3 passes, <= 10000 iterations; otherwise skipped and counted), unseal-key; (c) the built-in validators (Time, TimeWithLeeway, and_then HasExpiry) and the claims codec on claims whose exp/nbf lie anywhere in jiff's range incl. MIN, MAX and within k leeways of either edge (now within +-10^10 s, leeway <= 10^8 s), directly and through unseal of an authentic token; oracle: every call returns Ok or Err - a panic is a violation keyed by its source location, a dead child process (abort / SIGSEGV) is a violation. Non-trivial iff accepted by at least one parser stage; distinct by (stages reached, length class, input class). Thorough adds libFuzzer+ASan campaigns over the same entry function",
+        rule: "per back end (each in its own child process; harness built with overflow checks, repo crates with debug assertions): (a) enumeration of every decoded payload length 0..=700 x {random, 0x00, 0xff, mutated-valid} under every header of the back end, and every structured key-byte shape of the C08 catalogue (incl. structurally odd RSA private keys); one valid string of every kind with single bytes substituted - all 256 values at every field boundary (format tags), 12 edge values at 25 further offsets; (b) proptest inputs: header + bytes, raw key bytes of every kind, library-produced valid strings of every kind with 0-4 edits (substitute / insert / delete / append / duplicate segment / swap header / truncate), arbitrary and grammar-shaped strings; each string is offered to EVERY FromStr of the back end (tokens with Vec<u8>, (), Json and RegisteredClaims payload/footer types; key texts; typed keys of all five kinds; ids; PIE; PBKW; sealed keys) and whatever parses is used: Display, unverified_footer, unseal with and without assertion, key conversion, expose, id, clone, public_key, seal / sign / wrap / seal-key to it, unwrap, params + password unwrap (KDF cost within the budget: <= 8 MiB quick / 64 MiB thorough, <= 3 passes, <= 10000 iterations; otherwise skipped and counted), unseal-key; (c) the built-in validators (Time, TimeWithLeeway, and_then HasExpiry) and the claims codec on claims whose exp/nbf lie anywhere in jiff's range incl. MIN, MAX and within k leeways of either edge (now within +-10^10 s, leeway <= 10^8 s), directly and through unseal of an authentic token; (d) authentic local and public tokens of every back end whose message and footer BYTES are hostile (empty, whitespace, non-objects, truncated objects, bad escapes, BOM, invalid UTF-8, nesting depth 1..400, junk around a valid object, arbitrary bytes), parsed and unsealed as RegisteredClaims / Json<Value> / Json<Map> payloads with bytes / () / Json footers, and the codecs called directly; oracle: every call returns Ok or Err - a panic is a violation keyed by its source location, a dead child process (abort / SIGSEGV) is a violation. Non-trivial iff accepted by at least one parser stage; distinct by (stages reached, length class, input class). Thorough adds libFuzzer+ASan campaigns over the same entry function",
         assumptions: vec!["attacker-chosen PBKW costs beyond the stated budget are resource exhaustion, not covered", "dangerous_seal_with_nonce with a nonce shorter than the version's own is caller misuse of an API marked dangerous, not in the domain"],
         subs,
     }
@@ -677,6 +678,155 @@ macro_rules! by_backend {
             _ => { type $B = BV4Na; $body }
         }
     };
+}
+
+// ---------------------------------------------------------------------------
+// authentic tokens whose message / footer bytes are hostile: what a key holder (or, for `public`,
+// anyone who obtains one signature over bytes they chose) can put in front of the typed decoders
+
+#[derive(Debug, Clone, Serialize, Deserialize)]
+pub struct HostileCase {
+    backend: u8,
+    public: bool,
+    #[serde(with = "hexser")]
+    message: Vec<u8>,
+    #[serde(with = "hexser")]
+    footer: Vec<u8>,
+    key: u64,
+}
+
+fn hostile_bytes() -> impl Strategy<Value = Vec<u8>> {
+    let fixed: Vec<Vec<u8>> = vec![
+        vec![],
+        b" ".to_vec(),
+        b"\n\t \r".to_vec(),
+        b"[]".to_vec(),
+        b"[1,2]".to_vec(),
+        b"\"x\"".to_vec(),
+        b"null".to_vec(),
+        b"0".to_vec(),
+        b"-".to_vec(),
+        b"true".to_vec(),
+        b"{".to_vec(),
+        b"}".to_vec(),
+        b"{}".to_vec(),
+        b" {} ".to_vec(),
+        b"{}x".to_vec(),
+        b"{\"".to_vec(),
+        b"{\"exp\"".to_vec(),
+        b"{\"exp\":".to_vec(),
+        b"{\"exp\":\"\"}".to_vec(),
+        b"{\"exp\":null}".to_vec(),
+        b"{\"exp\":1}".to_vec(),
+        b"{\"exp\":\"9999-12-31T23:59:59Z\"}".to_vec(),
+        b"{\"exp\":\"-009999-01-01T00:00:00Z\"}".to_vec(),
+        b"{\"exp\":\"2020-01-01T00:00:00+99:99\"}".to_vec(),
+        b"{\"iss\":\"\\ud800\"}".to_vec(),
+        b"{\"iss\":\"\\u0000\"}".to_vec(),
+        b"{\"kid\":1}".to_vec(),
+        b"\xef\xbb\xbf{}".to_vec(),
+        b"\xff\xfe".to_vec(),
+        b"{\"iss\":\"\xc3\"}".to_vec(),
+        vec![0],
+        vec![0x80],
+        b"1e999999".to_vec(),
+        b"{\"a\":1e999999}".to_vec(),
+        b"{\"a\":123456789012345678901234567890123456789012345678901234567890}".to_vec(),
+    ];
+    prop_oneof![
+        6 => prop::sample::select(fixed),
+        2 => proptest::collection::vec(any::<u8>(), 0..40),
+        2 => proptest::collection::vec(prop::sample::select(b"{}[]\":,\\ \n0123456789-+.eEtrufalsn\"expissnbfiatjtisubaudkidwpk".to_vec()), 0..60),
+        // deep nesting on either side of serde_json's recursion limit, closed and unclosed
+        1 => (1usize..400, any::<bool>(), any::<bool>()).prop_map(|(d, obj, close)| {
+            let mut v = Vec::new();
+            for _ in 0..d { v.extend_from_slice(if obj { b"{\"a\":" } else { b"[" }); }
+            v.extend_from_slice(b"1");
+            if close { for _ in 0..d { v.push(if obj { b'}' } else { b']' }); } }
+            v
+        }),
+        // a valid object followed / preceded by anything
+        1 => (proptest::collection::vec(any::<u8>(), 0..6), proptest::collection::vec(any::<u8>(), 0..6)).prop_map(|(a, b)| {
+            let mut v = a; v.extend_from_slice(b"{\"iss\":\"i\",\"exp\":\"2039-01-01T00:00:00Z\"}"); v.extend(b); v
+        }),
+    ]
+}
+
+fn hostile_strategy() -> impl Strategy<Value = HostileCase> {
+    (0u8..6, any::<bool>(), hostile_bytes(), prop_oneof![2 => Just(Vec::new()), 3 => hostile_bytes()], any::<u64>()).prop_map(|(backend, public, message, footer, key)| HostileCase { backend, public, message, footer, key })
+}
+
+fn hostile_for<B: Backend>(c: &HostileCase, acc: &mut Acc) -> R {
+    use paseto_json::{Json, RegisteredClaims};
+    let ks = KeySeed::from_u64(c.key % 8);
+    let text = if c.public {
+        UnsealedToken::<V<B>, Public, Raw>::new(Raw(c.message.clone())).with_footer(c.footer.clone()).seal(&secret_key::<B>(&ks), &[]).map(|t| t.to_string())
+    } else {
+        UnsealedToken::<V<B>, Local, Raw>::new(Raw(c.message.clone())).with_footer(c.footer.clone()).seal(&local_key::<B>(&ks), &[]).map(|t| t.to_string())
+    }
+    .unwrap_or_else(|e| library_refused("sealing raw message bytes", &e));
+    let purpose = if c.public { "public" } else { "local" };
+    let mut accepted = 0u32;
+    macro_rules! try_as {
+        ($M:ty, $F:ty, $label:expr) => {{
+            let r = catch(|| {
+                if c.public {
+                    let pk = secret_key::<B>(&ks).public_key();
+                    text.parse::<SealedToken<V<B>, Public, $M, $F>>().ok().map(|t| {
+                        let _ = t.unverified_footer();
+                        let _ = t.to_string();
+                        t.unseal(&pk, &[], &NoValidation::dangerous_no_validation()).is_ok()
+                    })
+                } else {
+                    let k = local_key::<B>(&ks);
+                    text.parse::<SealedToken<V<B>, Local, $M, $F>>().ok().map(|t| {
+                        let _ = t.unverified_footer();
+                        let _ = t.to_string();
+                        t.unseal(&k, &[], &NoValidation::dangerous_no_validation()).is_ok()
+                    })
+                }
+            });
+            match r {
+                Ok(Some(true)) => accepted += 1,
+                Ok(_) => {}
+                Err(loc) => {
+                    return Err(Fail::new(
+                        format!("C04/{}/{purpose}/authentic-hostile/{}/panic/{}", B::NAME, $label, panic_site(&loc)),
+                        format!("an authentic {purpose} token with message {:?} and footer {:?} read as {} panicked at {loc}", String::from_utf8_lossy(&c.message), String::from_utf8_lossy(&c.footer), $label),
+                    ))
+                }
+            }
+        }};
+    }
+    try_as!(RegisteredClaims, Vec<u8>, "RegisteredClaims+bytes");
+    try_as!(Json<serde_json::Value>, Vec<u8>, "Json<Value>+bytes");
+    try_as!(Json<std::collections::BTreeMap<String, serde_json::Value>>, Vec<u8>, "Json<Map>+bytes");
+    try_as!(Raw, Json<serde_json::Value>, "bytes+Json<Value>");
+    try_as!(RegisteredClaims, Json<serde_json::Value>, "RegisteredClaims+Json<Value>");
+    try_as!(Raw, (), "bytes+()");
+    try_as!(Raw, Json<std::collections::BTreeMap<String, String>>, "bytes+Json<Map>");
+    // the codecs called directly on the same bytes
+    let r = catch(|| {
+        use paseto_core::encodings::{Footer, Payload};
+        let a = <RegisteredClaims as Payload>::decode(&c.message).is_ok();
+        let b = <Json<serde_json::Value> as Payload>::decode(&c.message).is_ok();
+        let d = <Json<serde_json::Value> as Footer>::decode(&c.footer).is_ok();
+        let e = <() as Footer>::decode(&c.footer).is_ok();
+        (a, b, d, e)
+    });
+    if let Err(loc) = r {
+        return Err(Fail::new(format!("C04/codec/authentic-hostile/panic/{}", panic_site(&loc)), format!("decoding message {:?} / footer {:?} panicked at {loc}", String::from_utf8_lossy(&c.message), String::from_utf8_lossy(&c.footer))));
+    }
+    acc.class(&format!("hostile:{}:{purpose}:accepted-by-{}", B::NAME, accepted.min(3)));
+    acc.evals_n(8);
+    if accepted > 0 {
+        acc.nt(hash_of(&(B::NAME, c.public, accepted, &c.message, &c.footer)));
+    }
+    Ok(())
+}
+
+fn hostile_case(c: &HostileCase, acc: &mut Acc) -> R {
+    by_backend!(c.backend, B => hostile_for::<B>(c, acc))
 }
 
 pub fn fuzz_string(backend: u8, s: &str) {
